@@ -54,6 +54,7 @@ SCHEDS = {
     "fcfs": ({"kind": "greedy", "sort": "fcfs"}, 1),
     "sparse": ({"kind": "script", "prog": {"rule": "max", "len": 1}}, None),
     "look": ({"kind": "script", "prog": {"rule": "max", "len": 1, "lookahead": True}}, 1),
+    "near": ({"kind": "script", "prog": {"rule": "nearmax", "len": 1}}, 1),
 }
 NOISE = ([0.0], [3.0], [-3.0], [1.0, -2.0, 0.1])
 
@@ -71,14 +72,18 @@ def space(tier, seed):
         for ss in S.session_subsets(pool, 1, 3 if thorough else 2):
             noisy = any("noise" in s for s in ss)
             for sk in SCHEDS:
-                for period in (1, 5, 7.5):
+                # 8 minutes do not divide an hour (7.5 periods per hour): for the two-stage batteries under two schedulers
+                for period in (1, 5, 7.5) + ((8,) if sk in ("max1", "unc") and any(s.get("batt") in ("l2c", "l2s") for s in ss) else ()):
                     if not thorough and len(ss) == 2 and period == 5 and sk in ("alt", "sparse"):
                         continue
-                    if sk == "look" and period != 5:
+                    if sk in ("look", "near") and period != 5:
                         continue
                     for npat in (NOISE if noisy else NOISE[:1]):
                         spec, k = SCHEDS[sk]
                         items.append({"net": netname, "sessions": ss, "sched": spec, "sk": sk, "k": k, "period": period, "noise": list(npat)})
+                        if sk == "max1" and period == 5 and npat == NOISE[0]:
+                            # the same sessions simulated a second time with the SAME (reset) EV objects under a pulsed scheduler
+                            items.append({"net": netname, "sessions": ss, "sched": spec, "sk": sk, "k": k, "period": period, "noise": list(npat), "rerun": True})
     return items + stoch_items(tier)
 
 
@@ -285,6 +290,8 @@ def run_stoch(item, only_choices=None):
 def execute(scn):
     with S.owned_noise(S.cyclic(scn.get("noise") or [0.0])):
         tr = S.run_sim(scn)
+        if scn.get("rerun") and tr.error is None:
+            tr = S.run_sim(dict(scn, sched={"kind": "script", "prog": {"rule": "zeromax", "len": 1}}, k=1), reuse=tr.evs)
     viol = []
     check(scn, tr, lambda sig, what, o=None, e=None: viol.append((sig, what, o, e)))
     return tr, viol
